@@ -22,6 +22,7 @@ from .values import (
     to_string,
     to_number,
     js_pow,
+    norm_number,
 )
 from .errors import JSError, MemoryLimitError, TimeLimitError
 
@@ -700,52 +701,101 @@ class Context:
         ctx = self  # Reference for closures
 
         def parse_fn(*args):
-            text = to_string(args[0]) if args else ""
+            text = to_string(args[0]) if args else "undefined"
+
+            def reject_constant(name):
+                # NaN, Infinity and -Infinity are extensions of the host parser
+                raise ValueError(f"Unexpected token {name}")
+
+            def parse_int(digits):
+                if digits == "-0":
+                    return -0.0
+                return norm_number(int(digits))
+
+            def build(py_value):
+                # Arrays and objects get the context's prototypes, like literals
+                if isinstance(py_value, list):
+                    arr = JSArray()
+                    arr._prototype = ctx._array_prototype
+                    arr._elements = [build(item) for item in py_value]
+                    return arr
+                if isinstance(py_value, dict):
+                    obj = JSObject(ctx._object_prototype)
+                    for key, item in py_value.items():
+                        obj.set(key, build(item))
+                    return obj
+                return NULL if py_value is None else py_value
+
             try:
-                py_value = json.loads(text)
-                return ctx._to_js(py_value)
-            except json.JSONDecodeError as e:
+                py_value = json.loads(
+                    text, parse_constant=reject_constant, parse_int=parse_int
+                )
+            except (ValueError, RecursionError) as e:
                 from .errors import JSSyntaxError
 
                 raise JSSyntaxError(f"JSON.parse: {e}")
+            return build(py_value)
+
+        def quote(string):
+            """QuoteJSONString: escape only what JSON requires."""
+            out = ['"']
+            for ch in string:
+                code = ord(ch)
+                if ch == '"':
+                    out.append('\\"')
+                elif ch == "\\":
+                    out.append("\\\\")
+                elif code < 0x20:
+                    short = {8: "\\b", 9: "\\t", 10: "\\n", 12: "\\f", 13: "\\r"}
+                    out.append(short.get(code, "\\u%04x" % code))
+                elif 0xD800 <= code <= 0xDFFF:
+                    out.append("\\u%04x" % code)  # lone surrogate
+                else:
+                    out.append(ch)
+            out.append('"')
+            return "".join(out)
+
+        def serialize(v, path):
+            """SerializeJSONProperty: the JSON text of v, or None if v is not serializable."""
+            if v is NULL:
+                return "null"
+            if isinstance(v, bool):
+                return "true" if v else "false"
+            if isinstance(v, (int, float)):
+                if isinstance(v, float) and (math.isnan(v) or math.isinf(v)):
+                    return "null"
+                return to_string(v)
+            if isinstance(v, str):
+                return quote(v)
+            if not isinstance(v, JSObject) or isinstance(v, JSCallableObject):
+                return None  # undefined, functions
+            if any(v is seen for seen in path):
+                from .errors import JSTypeError
+
+                raise JSTypeError("Converting circular structure to JSON")
+            path.append(v)
+            try:
+                if isinstance(v, JSArray):
+                    items = [serialize(item, path) or "null" for item in v._elements]
+                    return "[" + ",".join(items) + "]"
+                members = []
+                for key in v.keys():
+                    item = serialize(v.get(key), path)
+                    if item is not None:
+                        members.append(quote(key) + ":" + item)
+                return "{" + ",".join(members) + "}"
+            finally:
+                path.pop()
 
         def stringify_fn(*args):
             value = args[0] if args else UNDEFINED
-
-            # Convert JS value to Python for json.dumps, handling undefined specially
-            def to_json_value(v):
-                if v is UNDEFINED:
-                    return None  # Will be filtered out for object properties
-                if v is NULL:
-                    return None
-                if isinstance(v, bool):
-                    return v
-                if isinstance(v, (int, float)):
-                    return v
-                if isinstance(v, str):
-                    return v
-                if isinstance(v, JSArray):
-                    # For arrays, undefined becomes null
-                    return [
-                        None if elem is UNDEFINED else to_json_value(elem)
-                        for elem in v._elements
-                    ]
-                if isinstance(v, JSObject):
-                    # For objects, skip undefined values
-                    result = {}
-                    for k, val in v._properties.items():
-                        if val is not UNDEFINED:
-                            result[k] = to_json_value(val)
-                    return result
-                return None
-
-            py_value = to_json_value(value)
             try:
-                return json.dumps(py_value, separators=(",", ":"))
-            except (TypeError, ValueError) as e:
-                from .errors import JSTypeError
+                text = serialize(value, [])
+            except RecursionError:
+                from .errors import JSRangeError
 
-                raise JSTypeError(f"JSON.stringify: {e}")
+                raise JSRangeError("JSON.stringify: value is nested too deeply")
+            return UNDEFINED if text is None else text
 
         json_obj.set("parse", parse_fn)
         json_obj.set("stringify", stringify_fn)
